@@ -279,6 +279,90 @@ func runCons(t *testing.T, tk []string) string {
 		done.Wait()
 		cl.Close()
 	}
+	// prelude (a quarter of the scenarios that start at offset 0): two transactions write the same number of records
+	// to every partition and are committed or aborted, then the log start of every partition is advanced by
+	// DeleteRecords to one offset inside what was written -- possibly inside an aborted transaction, whose remaining
+	// records must stay invisible to a read_committed consumer. The consumer's start position is then that offset.
+	cfgStart := startoff
+	if startoff == 0 && seed%4 == 3 {
+		wr := hx.NewRng(seed*17 + 5)
+		cl, err := kgo.NewClient(append([]kgo.Opt{kgo.RecordPartitioner(kgo.ManualPartitioner()), kgo.ProducerLinger(0),
+			kgo.TransactionalID(fmt.Sprintf("pre-%d", seed)), kgo.TransactionTimeout(30 * time.Second)}, common...)...)
+		if err != nil {
+			return "ERR:client:" + err.Error()
+		}
+		total, ok := int64(0), true
+		for k := 0; k < 2 && ok; k++ {
+			txn := nextTxn.Add(1)
+			if err := cl.BeginTransaction(); err != nil {
+				return "ERR:prelude-begin:" + err.Error()
+			}
+			var done sync.WaitGroup
+			n := 2 + wr.Intn(4)
+			for i := 0; i < n; i++ {
+				for p := 0; p < parts; p++ {
+					id := nextID.Add(1)
+					done.Add(1)
+					rec := &kgo.Record{Topic: "t", Partition: int32(p), Key: []byte(strconv.FormatInt(id, 10)), Value: make([]byte, wr.Intn(40))}
+					cl.Produce(ctx, rec, func(r *kgo.Record, err error) {
+						if err == nil {
+							log.Add("D:%d:%d:%d:%d", id, r.Partition, r.Offset, txn)
+						} else {
+							log.Add("Dx:%d", id)
+							ok = false
+						}
+						done.Done()
+					})
+				}
+			}
+			cl.Flush(ctx)
+			done.Wait()
+			c := "a"
+			if wr.Chance(40) {
+				c = "c"
+			}
+			log.Add("Ts:%d:%s", txn, c)
+			if err := cl.EndTransaction(ctx, kgo.TransactionEndTry(c == "c")); err != nil {
+				log.Add("Te:%d:%s:err", txn, c)
+				ok = false
+				break
+			}
+			log.Add("Te:%d:%s:ok", txn, c)
+			total += int64(n) + 1
+		}
+		cl.Close()
+		if ok && total > 2 {
+			d := 1 + int64(wr.Intn(int(total-1)))
+			adm, err := kgo.NewClient(common...)
+			if err != nil {
+				return "ERR:client:" + err.Error()
+			}
+			req := kmsg.NewPtrDeleteRecordsRequest()
+			rt := kmsg.NewDeleteRecordsRequestTopic()
+			rt.Topic = "t"
+			for p := 0; p < parts; p++ {
+				rp := kmsg.NewDeleteRecordsRequestTopicPartition()
+				rp.Partition, rp.Offset = int32(p), d
+				rt.Partitions = append(rt.Partitions, rp)
+			}
+			req.Topics = append(req.Topics, rt)
+			req.TimeoutMillis = 5000
+			resp, err := req.RequestWith(ctx, adm)
+			adm.Close()
+			if err != nil {
+				return "ERR:prelude-delete:" + err.Error()
+			}
+			for _, t := range resp.Topics {
+				for _, p := range t.Partitions {
+					if p.ErrorCode != 0 || p.LowWatermark != d {
+						return fmt.Sprintf("ERR:prelude-delete:partition %d code %d low watermark %d want %d", p.Partition, p.ErrorCode, p.LowWatermark, d)
+					}
+				}
+			}
+			cfgStart = d
+			hx.St.Inc("scen.cons.prelude-delete-records")
+		}
+	}
 	// plain producer
 	if plainN > 0 {
 		pwg.Add(1)
@@ -477,5 +561,5 @@ func runCons(t *testing.T, tk []string) string {
 	synctest.Wait()
 	log.Add("Q")
 	hx.St.Inc("scen.total")
-	return fmt.Sprintf("cfg:%d:%d:%d:%d ", parts, b2i(committed), b2i(keepctl), startoff) + log.String()
+	return fmt.Sprintf("cfg:%d:%d:%d:%d ", parts, b2i(committed), b2i(keepctl), cfgStart) + log.String()
 }
